@@ -136,3 +136,94 @@ Example C06_nonvacuous_area : delineate_area 2 2 [2; 4; 1; 0] 3 [] 10 = DOk [0; 
 Proof. exact area_example. Qed.
 Example C06_nonvacuous_chain : chain 3 2 [4; 8; 4; 4; 4; 0] (1 :: [2] ++ [4]).
 Proof. exact flowpath_example. Qed.
+
+(* ================================================================== *)
+(* The same relations on the REGENERATED program: [program] is the MiniC *)
+(* translation of src/hydrodiy/gis/c_grid.c produced from the tree under *)
+(* test on every run (Gen/KernelsAst.v); [exec_fun] its interpreter.     *)
+(* ================================================================== *)
+From Coq Require Import String.
+From Hy Require Import Base.MiniC Gen.KernelsAst Proofs.RefineFlow Proofs.KernelFlow.
+Open Scope string_scope.
+Open Scope list_scope.
+Open Scope Z_scope.
+
+(* refinement, any 3x3 code table, any grid shape, any list of cell numbers (valid
+   or not), any initial buffer content: c_downstream either returns 0 and the model's
+   answer for every cell, or stops at the first invalid cell number with a positive
+   code, the entries before it written and the others untouched *)
+Theorem C06_kernel_downstream_refines_model :
+  forall {T} (N : NumOps T) (X : NumLit T) nrows ncols codes fdl idx junk n,
+  List.length codes = 9%nat ->
+  Z.of_nat (List.length fdl) = nrows * ncols ->
+  List.length junk = List.length idx ->
+  (List.length idx < n)%nat -> (9 < n)%nat ->
+  (exists out,
+     Forall2 (fun c v => downstream_with codes nrows ncols fdl c = Some v) idx out /\
+     exec_fun N X program (S n) "c_downstream"
+       [AVI nrows; AVI ncols; AVArrI codes; AVArrI fdl; AVI (MiniC.zlen idx); AVArrI idx; AVArrI junk]
+     = Ok (RI 0, [VArrI codes; VArrI fdl; VArrI idx; VArrI out]))
+  \/
+  (exists done bad rest outd code,
+     idx = done ++ bad :: rest /\
+     Forall2 (fun c v => downstream_with codes nrows ncols fdl c = Some v) done outd /\
+     downstream_with codes nrows ncols fdl bad = None /\ 0 < code /\
+     exec_fun N X program (S n) "c_downstream"
+       [AVI nrows; AVI ncols; AVArrI codes; AVArrI fdl; AVI (MiniC.zlen idx); AVArrI idx; AVArrI junk]
+     = Ok (RI code, [VArrI codes; VArrI fdl; VArrI idx;
+                     VArrI (outd ++ skipn (List.length done) junk)])).
+Proof. exact @refine_downstream_total. Qed.
+Print Assumptions C06_kernel_downstream_refines_model.
+
+Theorem C06_kernel_upstream_refines_model :
+  forall {T} (N : NumOps T) (X : NumLit T) nrows ncols codes fdl idx junk n,
+  List.length codes = 9%nat ->
+  Z.of_nat (List.length fdl) = nrows * ncols ->
+  List.length junk = (9 * List.length idx)%nat ->
+  (List.length idx < n)%nat -> (9 < n)%nat ->
+  (exists outs,
+     Forall2 (fun c l => upstream_with codes nrows ncols fdl c = Some l) idx outs /\
+     exec_fun N X program (S n) "c_upstream"
+       [AVI nrows; AVI ncols; AVArrI codes; AVArrI fdl; AVI (MiniC.zlen idx); AVArrI idx; AVArrI junk]
+     = Ok (RI 0, [VArrI codes; VArrI fdl; VArrI idx; VArrI (List.concat outs)]))
+  \/
+  (exists done bad rest outsd code,
+     idx = done ++ bad :: rest /\
+     Forall2 (fun c l => upstream_with codes nrows ncols fdl c = Some l) done outsd /\
+     upstream_with codes nrows ncols fdl bad = None /\ 0 < code /\
+     exec_fun N X program (S n) "c_upstream"
+       [AVI nrows; AVI ncols; AVArrI codes; AVArrI fdl; AVI (MiniC.zlen idx); AVArrI idx; AVArrI junk]
+     = Ok (RI code, [VArrI codes; VArrI fdl; VArrI idx;
+                     VArrI (List.concat outsd ++ skipn (9 * List.length done) junk)])).
+Proof. exact @refine_upstream_total. Qed.
+Print Assumptions C06_kernel_upstream_refines_model.
+
+(* [upstream_with] with the extracted table is the model's [upstream] *)
+Theorem C06_kernel_upstream_with_std : forall nrows ncols fd c,
+  upstream_with FLOWDIRCODE nrows ncols fd c = upstream nrows ncols fd c.
+Proof. reflexivity. Qed.
+
+(* upstream and downstream are inverse relations ON THE TRANSLATED KERNELS: for valid
+   cells c, d of any grid, c_upstream lists c for d exactly when c_downstream answers
+   d for c *)
+Theorem C06_kernel_up_down_inverse :
+  forall {T} (N : NumOps T) (X : NumLit T) nrows ncols fd c d buf9 buf1 n,
+  0 < ncols -> Z.of_nat (List.length fd) = nrows * ncols ->
+  0 <= c < nrows * ncols -> 0 <= d < nrows * ncols ->
+  List.length buf9 = 9%nat -> List.length buf1 = 1%nat -> (9 < n)%nat ->
+  exists ups dn,
+    run_upstream N X n nrows ncols fd [d] buf9
+      = Ok (RI 0, [VArrI FLOWDIRCODE; VArrI fd; VArrI [d]; VArrI ups]) /\
+    run_downstream N X n nrows ncols fd [c] buf1
+      = Ok (RI 0, [VArrI FLOWDIRCODE; VArrI fd; VArrI [c]; VArrI [dn]]) /\
+    List.length ups = 9%nat /\
+    (In c ups <-> dn = d).
+Proof. exact @kernel_up_down_inverse. Qed.
+Print Assumptions C06_kernel_up_down_inverse.
+
+(* non-vacuity: a 2x2 grid whose cell 0 drains east (code 1) into cell 1 *)
+Example C06_kernel_runs :
+  exec_fun F64 XF64 program 40 "c_downstream"
+    [AVI 2; AVI 2; AVArrI FLOWDIRCODE; AVArrI [1; 0; 0; 0]; AVI 2; AVArrI [0; 1]; AVArrI [7; 7]]
+  = Ok (RI 0, [VArrI FLOWDIRCODE; VArrI [1; 0; 0; 0]; VArrI [0; 1]; VArrI [1; -2]]).
+Proof. vm_compute. reflexivity. Qed.
